@@ -102,20 +102,29 @@ func Run(sys System, opt Options) *Result {
 		opt.Workers = 1
 	}
 	if opt.MaxViol <= 0 {
-		opt.MaxViol = 20
+		opt.MaxViol = 40 // distinct violation signatures
 	}
 	res := &Result{PerEvent: map[string]map[string]int{}, Outcomes: map[string]int{}, Exhaustive: true}
 	var mu sync.Mutex
 	seen := map[string]struct{}{}
+	// violations are kept once per signature (shortest path wins), so a finding that recurs in
+	// thousands of states neither floods the report nor cuts the exploration short
+	bySig := map[string]int{}
 	addViol := func(vs []*Violation) {
 		if len(vs) == 0 {
 			return
 		}
 		mu.Lock()
 		for _, v := range vs {
-			if len(res.Violations) < opt.MaxViol*4 {
-				res.Violations = append(res.Violations, v)
+			key := v.Property + "|" + v.Sig
+			if i, ok := bySig[key]; ok {
+				if len(v.Path) < len(res.Violations[i].Path) {
+					res.Violations[i] = v
+				}
+				continue
 			}
+			bySig[key] = len(res.Violations)
+			res.Violations = append(res.Violations, v)
 		}
 		mu.Unlock()
 	}
@@ -140,10 +149,11 @@ func Run(sys System, opt Options) *Result {
 	rd := workers[0].Digest(root)
 	seen[rd] = struct{}{}
 	res.States = 1
-	for _, v := range workers[0].CheckState(root) {
+	rootV := workers[0].CheckState(root)
+	for _, v := range rootV {
 		v.Path = []string{}
-		res.Violations = append(res.Violations, v)
 	}
+	addViol(rootV)
 	if opt.KeepTree {
 		res.Tree = append(res.Tree, TreeNode{Path: nil, Digest: rd})
 	}
